@@ -848,8 +848,14 @@ class Node:
                         raise UniqueConstraintError(
                             "Node.data already exists in parent"
                         )
-            for c in self.children.copy():
-                c.move_to(self._parent, before=self)
+            # Splice the children into the parent's list, directly before self
+            # (We cannot use `move_to()`, because typed nodes don't support it)
+            pc = self._parent._children
+            idx = _index_of(pc, self)  # type: ignore
+            for c in self.children:
+                c._parent = self._parent
+            pc[idx:idx] = self.children  # type: ignore
+            self._children = None
         else:
             self.remove_children()
 
